@@ -329,9 +329,10 @@ class ApiCloseHandler(NbdimeHandler, APIHandler):
 
         if isinstance(exit_code, str):
             exit_code = int(exit_code, 10)
-        if not isinstance(exit_code, int) or isinstance(exit_code, bool):
-            # (null would make the tool exit with status 0: success)
-            raise web.HTTPError(400, 'The exit code has to be an integer.')
+        if (not isinstance(exit_code, int) or isinstance(exit_code, bool) or
+                not 0 <= exit_code <= 255):
+            # (null, or 256, would make the tool exit with status 0: success)
+            raise web.HTTPError(400, 'The exit code has to be an integer from 0 to 255.')
         self.application.exit_code = exit_code
 
         _logger.info('Closing server on remote request (%d)', self.application.exit_code)
